@@ -61,6 +61,22 @@ func setSet(set *[256]bool, alpha string) {
 			set[alpha[i]] = true
 		}
 	}
+	if len(alpha) > 4 && alpha[:4] == "hex:" {
+		// "hex:6162c3a9" = the byte set {0x61,0x62,0xc3,0xa9}
+		for i := 4; i+1 < len(alpha); i += 2 {
+			set[hexVal(alpha[i])<<4|hexVal(alpha[i+1])] = true
+		}
+	}
+}
+
+func hexVal(c byte) byte {
+	switch {
+	case c >= '0' && c <= '9':
+		return c - '0'
+	case c >= 'a' && c <= 'f':
+		return c - 'a' + 10
+	}
+	return 0
 }
 
 // setupPF builds the prefilter named by API from the literal set in Pattern.
